@@ -301,7 +301,7 @@ def run(ctx):
     ncases = 3000 if ctx.quick else 24000
     cases, recs = [], []
     stats = dict(kinds={}, flags={}, wkinds={}, shapes={}, gated={}, errors=0, rank_deficient_Kmm=0,
-                 penrose_residual_max=[0.0, 0.0, 0.0, 0.0], test_is_train_rows=0)
+                 penrose_residual_max=[0.0, 0.0, 0.0, 0.0])
     for _ in range(ncases):
         c = gen_case(ctx.rng, ctx.quick)
         r = run_impl(c)
